@@ -5,6 +5,8 @@ pub mod common;
 #[cfg(kani)]
 mod c10;
 #[cfg(kani)]
+mod c09;
+#[cfg(kani)]
 mod warmup {
     kproof!(warmup, 4, {
         let x: u8 = kani::any();
